@@ -464,6 +464,14 @@ func classOpts(o optSet) {
 var undocumented = map[string]bool{}
 
 func featureOff(tag string) bool {
+	// triage aid: C08_FORCE_OFF=tag1,tag2 switches these constructs off even under VERIF_NO_EXCLUDE
+	if fo := os.Getenv("C08_FORCE_OFF"); fo != "" {
+		for _, x := range strings.Split(fo, ",") {
+			if x == tag {
+				return true
+			}
+		}
+	}
 	if os.Getenv("VERIF_NO_EXCLUDE") == "" && undocumented[tag] {
 		ev.Class("undocumented-off:" + tag)
 		return true
@@ -484,6 +492,12 @@ var (
 func bucketKey(f failure) string {
 	s := f.Msg
 	if i := strings.IndexByte(s, '\n'); i >= 0 {
+		s = s[:i]
+	}
+	for _, drop := range []string{"left operand: ", "right operand: ", "SPIR-V generation error: "} {
+		s = strings.ReplaceAll(s, drop, "")
+	}
+	if i := strings.Index(s, " (and "); i >= 0 {
 		s = s[:i]
 	}
 	s = reIdent.ReplaceAllString(s, "_")
@@ -513,6 +527,9 @@ func addBuckets(src string, fails []failure) {
 	seen := map[string]bool{}
 	for _, f := range fails {
 		k := bucketKey(f)
+		if f.Stage == "compile" && len(fails) > 1 {
+			continue // the one-call API repeats a front-end / SPIR-V rejection
+		}
 		if seen[k] {
 			continue
 		}
@@ -683,4 +700,24 @@ func TestPropExec(t *testing.T) {
 		runCase(t, c.Src, o, execTraits(c), c.Classes, &total, &rejected)
 	})
 	dumpBuckets("exec", total, rejected)
+}
+
+// TestShrinkRej is a triage aid: with C08_MATCH=<substring> rapid shrinks a
+// generated exec program one of whose rejections contains the substring.
+func TestShrinkRej(t *testing.T) {
+	match := os.Getenv("C08_MATCH")
+	if match == "" {
+		t.Skip("triage aid; set C08_MATCH")
+	}
+	rapid.Check(t, func(t *rapid.T) {
+		c := wgen.GenExec(t, execFeatures())
+		var o optSet
+		o.GlslVersion = "450"
+		fails, _ := compileAll(c.Src, o)
+		for _, f := range fails {
+			if strings.Contains(f.String(), match) {
+				t.Fatalf("%s\n%s", f, c.Src)
+			}
+		}
+	})
 }
